@@ -40,7 +40,7 @@ def run_untie(r):
     try:
         res = RankResult("m", alts, r, {})
         u = [int(x) for x in res.untied_rank_]
-        s = res.to_series(untied=True)
+        s = res.to_series(untied=[True, np.True_, 1][len(r) % 3])      # any truthy spelling of the flag
         return {"untied": u, "series": [int(x) for x in s.to_numpy()], "index": list(s.index)}
     except Exception as e:  # noqa: BLE001
         return {"error": repr(e)}
@@ -88,11 +88,12 @@ def run_cmp(case):
     try:
         rc = RanksComparator([(r["name"], RankResult(r["name"], r["alternatives"], r["values"], {}))
                               for r in case["ranks"]])
-        u = case["untied"]
+        # the flag in any truthy / falsy spelling a caller may hold it in (a numpy bool from a reduction, 0 / 1)
+        u = {True: [True, np.True_, 1], False: [False, np.False_, 0]}[bool(case["untied"])][len(case["ranks"][0]["alternatives"]) % 3]
         if case.get("asked_before"):
             for q in (rc.to_dataframe, rc.corr, rc.cov, rc.r2_score, rc.distance):
                 try:
-                    q(untied=not u)
+                    q(untied=not bool(u))
                 except Exception:  # noqa: BLE001
                     pass
         df = rc.to_dataframe(untied=u)
